@@ -39,6 +39,11 @@ var statements = []string{
 	"SELECT v FROM cpu WHERE host = 'h1' ORDER BY time DESC LIMIT 2",
 	"SELECT count(v) FROM cpu, mem",
 	"SELECT sum(v) FROM (SELECT v FROM cpu), mem",
+	"LOOKUP field-keys",
+	"LOOKUP cost",
+	"LOOKUP tag-keys",
+	"LOOKUP tag-values",
+	"LOOKUP measurements",
 }
 
 var layouts = []string{"as-created", "late-joined-empty-coordinator", "every-second-shard-copied-to-the-last-node"}
@@ -51,7 +56,7 @@ type faultKind struct {
 var faults = []faultKind{
 	{"ok", ck.Fault{}},
 	{"down", ck.Fault{Down: true}},
-	{"error-reply", ck.Fault{ErrorOnCreateIterator: true}},
+	{"error-reply", ck.Fault{ErrorOnCreateIterator: true, ErrorOnMetadata: true}},
 	{"never-answers", ck.Fault{Mute: true}},
 	{"dies-after-40B", ck.Fault{WriteBudget: 40}},
 	{"dies-after-1B", ck.Fault{WriteBudget: 1}},
@@ -180,10 +185,20 @@ func body(t *testing.T, maxNodes int, thorough bool) func(tp *explore.Tape) expl
 				}
 				return tp.Choose(k, "arrival-order")
 			})
-			rows, qerr = c.Query(coord, stmt)
+			if kind, ok := strings.CutPrefix(stmt, "LOOKUP "); ok {
+				rows, qerr = c.Lookup(coord, kind)
+			} else {
+				rows, qerr = c.Query(coord, stmt)
+			}
 			vrand.SetChooser(nil)
 			vgroup.SetChooser(nil)
 		})
+		if f := os.Getenv("VERIF_DUMP_TAPES"); f != "" {
+			if fh, err := os.OpenFile(fmt.Sprintf("%s.%d", f, os.Getpid()), os.O_APPEND|os.O_CREATE|os.O_WRONLY, 0o644); err == nil {
+				fmt.Fprintf(fh, "%v %v err=%v\n", tp.Picks(), tp.Labels(), qerr != nil)
+				fh.Close()
+			}
+		}
 		refMu.Lock()
 		want, ok := reference[stmt]
 		refMu.Unlock()
@@ -199,6 +214,12 @@ func body(t *testing.T, maxNodes int, thorough bool) func(tp *explore.Tape) expl
 		}
 		out.Obs = fmt.Sprintf("err=%v shardsOK=%v", qerr != nil, shardsOK)
 		switch {
+		case strings.HasPrefix(stmt, "LOOKUP ") && qerr == nil && rows != want:
+			out.Violation = fmt.Sprintf("the lookup returned no error but an incomplete or wrong answer:\n%s\nexpected (single node with all data):\n%s", rows, want)
+			out.Sig = "lookup-silent-partial:" + strings.TrimPrefix(stmt, "LOOKUP ")
+		case strings.HasPrefix(stmt, "LOOKUP ") && qerr != nil && shardsOK && !midStream:
+			out.Violation = fmt.Sprintf("every shard has a healthy owner, but the lookup failed: %v", qerr)
+			out.Sig = "lookup-failed-although-owners-available:" + strings.TrimPrefix(stmt, "LOOKUP ")
 		case qerr == nil && rows != want && rows == "":
 			out.Violation = "the query returned no error and no rows at all although data exists (field type lookup on unreachable owners has no error path):\nexpected:\n" + want
 			out.Sig = "silent-empty-result"
@@ -257,7 +278,12 @@ func referenceRows(t *testing.T, stmt string) string {
 		if err := c.Write(0, dataLines()); err != nil {
 			panic(err)
 		}
-		r, err := c.Query(0, stmt)
+		var r string
+		if kind, ok := strings.CutPrefix(stmt, "LOOKUP "); ok {
+			r, err = c.Lookup(0, kind)
+		} else {
+			r, err = c.Query(0, stmt)
+		}
 		if err != nil {
 			panic("reference query failed: " + err.Error())
 		}
